@@ -134,6 +134,75 @@ def adv_item(name, k, tier='quick', timeout_s=20, seed=0):
     return [r for r in res if '#wellformed[' not in r['oid']]
 
 
+COMPOSABLE = ['Add', 'SignedAdd', 'Neg', 'Abs', 'Sub', 'Mul', 'SignExtend', 'ZeroExtend', 'ShiftLeft', 'ShiftRight', 'And', 'Or', 'Xor', 'Nor', 'Not', 'Mux2', 'Mux',
+              'Comparator', 'Equal', 'EqualConstant', 'Max2', 'Min2', 'Select', 'Decoder', 'PriorityEncoder', 'Counter', 'ModuloCounter', 'DelayLine', 'Reg', 'TReg',
+              'EdgeDetector', 'ShiftRegisterBidirectional', 'CountLeadingZeros', 'Bit', 'Range', 'ConcatenateMSBF', 'BitsLSBF', 'Repeat']
+
+
+def build_random(seed):
+    """a seeded random composition: 2-4 registry blocks, each inside its own sub-block (hierarchy depth 3), chained through
+    Buf leaves wherever an output width matches a later input width; the same block / structure name may occur twice"""
+    import py4hw
+    rnd = random.Random(seed)
+    sys_ = _q(py4hw.HWSystem)
+    def top_wire(self, nm, width=1): return self.parent.wire(nm, width)
+    Top = type('W_rand%d' % seed, (py4hw.Logic,), {'wire': top_wire})
+    top = _q(Top, sys_, 'top')
+    free_in = {}; all_out = []; desc = []
+    nblocks = rnd.randint(2, 4)
+    for k in range(nblocks):
+        name = rnd.choice(COMPOSABLE)
+        b = N.BLOCKS[name]
+        cfgs = [c for c in b.cfgs('quick') if all(not isinstance(v, int) or v <= 8 for v in c.values())] or b.cfgs('quick')
+        if name == 'Reg': cfgs = [c for c in cfgs if c.get('e', 0) <= 1]      # multi-bit enable is a listed finding (C01-bodyreg-multibit-enable)
+        cfg = rnd.choice(cfgs)
+        def sub_wire(self, nm, width=1, _k=k): return top.__class__.__mro__[1].wire(top, 'b%d_%s' % (_k, nm), width)
+        Sub = type('Sub%d_%s' % (k, name), (py4hw.Logic,), {'wire': sub_wire})
+        subl = _q(Sub, top, 'b%d' % k)
+        try:
+            obj, ins, outs = _q(b.make, subl, dict(cfg))
+        except Exception:
+            del top.children['b%d' % k]
+            continue
+        for n, w in ins.items(): subl.addIn(n, w)
+        for n, w in outs.items(): subl.addOut(n, w)
+        desc.append((name, cfg))
+        # feed some inputs from earlier outputs of equal width
+        for n, w in ins.items():
+            cands = [o for o in all_out if o.getWidth() == w.getWidth()]
+            if cands and rnd.random() < 0.6:
+                src = rnd.choice(cands)
+                _q(py4hw.Buf, top, 'link%d_%s' % (k, n), src, w)
+            else:
+                free_in[w.name] = w
+        all_out.extend(outs.values())
+    pin = {}; pout = {}
+    for n, w in free_in.items():
+        w.reparent(sys_); top.addIn(n, w); pin[n] = w
+    for w in all_out:
+        w.reparent(sys_); top.addOut(w.name, w); pout[w.name] = w
+    return sys_, top, pin, pout, desc
+
+
+def rand_item(seed, timeout_s=20, **kw):
+    work._load_blocks()
+    base = 'design::rand.%d' % seed
+    try:
+        sys_, top, pin, pout, desc = build_random(seed)
+    except Exception as e:
+        return [{'oid': base + '#refused', 'status': 'refused', 'bounded': True, 'evaluations': 0, 'reason': repr(e)[:200]}]
+    if not desc or not pout:
+        return [{'oid': base + '#refused', 'status': 'refused', 'bounded': True, 'evaluations': 0}]
+    try:
+        res, text = vcompare.compare(sys_, top, pin, pout, base, timeout_s=timeout_s)
+    except (N.Undecided, L.Unsupported, L.ShapeError, ir.EvalError) as e:
+        return [{'oid': base + '#undecided', 'status': 'unknown', 'reason': '%s: %s' % (type(e).__name__, e), 'function': 'random composition'}]
+    for r in res:
+        r['cfg'] = {'seed': seed, 'blocks': [d[0] for d in desc], 'e': 0, 'sw': 0}
+        r['composition'] = desc
+    return [r for r in res if '#wellformed[' not in r['oid']]
+
+
 def main(tier, seed, only=None):
     t0 = time.time()
     work._load_blocks()
@@ -157,6 +226,8 @@ def main(tier, seed, only=None):
             items.append(('props.C01:design_item', dict(name=name, cfg=cfg, tier=tier, timeout_s=20 if tier == 'quick' else 120, seed=seed)))
     for nm, (mk, cfgs) in _adv().items():
         items += [('props.C01:adv_item', dict(name=nm, k=k, tier=tier, timeout_s=20 if tier == 'quick' else 120, seed=seed)) for k in range(len(cfgs))]
+    if not os.environ.get('PVC_BASELINE'):
+        items += [('props.C01:rand_item', dict(seed=seed * 1000 + k, timeout_s=20 if tier == 'quick' else 120)) for k in range(24 if tier == 'quick' else 200)]
     items = common.filter_only(items, only)
     res = run.run_items(items)
     refused = [r for r in res if r.get('status') == 'refused']
